@@ -1,6 +1,6 @@
 (* Runner operations for the resolver family C01-C07 (ops 100-199). *)
 From Coq Require Import List Bool NArith ZArith.
-From PV Require Import Base.Str Base.Value Base.Wire Resolver.Consts Resolver.Text Resolver.Resolve Resolver.Template Run.RState.
+From PV Require Import Base.Str Base.Value Base.Wire Resolver.Consts Resolver.Text Resolver.Resolve Resolver.Template Resolver.Creds Run.RState.
 Import ListNotations.
 Local Open Scope N_scope.
 
@@ -27,5 +27,9 @@ Definition run01 (st : rstate) (op : N) (arg : value) : option (rstate * value) 
   | 104, VList [pseudo; decls; extra] =>
       Some (st, enc_res (match bind_params (dict_of pseudo) (dict_of decls) (dict_of extra) with
                          | Ok ps => Ok (VDict ps) | Err e => Err e end))
+  | 105, VList [metadata] =>
+      Some (st, enc_res (match has_hc metadata with Ok b => Ok (VBool b) | Err e => Err e end))
+  | 106, VList [login; metadata] =>
+      Some (st, enc_res (match has_hc_user login metadata with Ok b => Ok (VBool b) | Err e => Err e end))
   | _, _ => None
   end.
